@@ -75,7 +75,7 @@ def confirm(src, prop, sid, needs):
 
 
 def run(ids, tier):
-    ids = ids or sorted(os.path.basename(p) for p in glob.glob(os.path.join(SEED, "*")) if os.path.isdir(p))
+    ids = ids or sorted(os.path.basename(p) for p in glob.glob(os.path.join(SEED, "C*")) if os.path.isdir(p))
     for sid in ids:
         d = os.path.join(SEED, sid)
         meta = json.load(open(os.path.join(d, "meta.json")))
